@@ -25,6 +25,7 @@ import (
 	sdk "github.com/cosmos/cosmos-sdk/types"
 	authtypes "github.com/cosmos/cosmos-sdk/x/auth/types"
 	govtypes "github.com/cosmos/cosmos-sdk/x/gov/types"
+	banktypes "github.com/cosmos/cosmos-sdk/x/bank/types"
 	stakingtypes "github.com/cosmos/cosmos-sdk/x/staking/types"
 )
 
@@ -312,6 +313,12 @@ func (w *World) do(ev string, args Rec, msg sdk.Msg) PhaseResult {
 func (w *World) Delegate(a *Actor, v *Val, amt int64) PhaseResult {
 	return w.do("Delegate", Rec{"who": a.Name, "val": v.Name, "amt": NumI64(amt)},
 		stakingtypes.NewMsgDelegate(a.Addr.String(), v.ValAddr.String(), coin(amt)))
+}
+
+// Send: an ordinary bank transfer signed by its sender.
+func (w *World) Send(from, to *Actor, amt int64) PhaseResult {
+	return w.do("Send", Rec{"who": from.Name, "to": to.Name, "amt": NumI64(amt)},
+		banktypes.NewMsgSend(from.Addr, to.Addr, sdk.NewCoins(coin(amt))))
 }
 
 func (w *World) Undelegate(a *Actor, v *Val, amt int64) PhaseResult {
